@@ -170,20 +170,29 @@ def genotype(
     elif profile_name == "pgrnseq-v3":
         profile_name = "pgx3"
 
-    if kind in ["vcf", "pscan"]:
-        log.warn("WARNING: Using VCF file. Copy-number calling is not available.")
-        profile = Profile("user_provided", cn_solution=["1", "1"], **params)
-        sample = sam.Sample(gene, profile, sam_path, debug=debug)
-    else:
-        if cn_solution:
-            profile = Profile("user_provided", cn_solution=cn_solution, **params)
-        elif kind != "dump":
-            if not profile_name:
-                raise AldyException("Profile not provided")
-            profile = Profile.load(gene, profile_name, cn_region, **params)
+    try:
+        if kind in ["vcf", "pscan"]:
+            log.warn("WARNING: Using VCF file. Copy-number calling is not available.")
+            profile = Profile("user_provided", cn_solution=["1", "1"], **params)
+            sample = sam.Sample(gene, profile, sam_path, debug=debug)
         else:
-            profile = None
-        sample = sam.Sample(gene, profile, sam_path, reference, debug)
+            if cn_solution:
+                profile = Profile("user_provided", cn_solution=cn_solution, **params)
+            elif kind != "dump":
+                if not profile_name:
+                    raise AldyException("Profile not provided")
+                profile = Profile.load(gene, profile_name, cn_region, **params)
+            else:
+                profile = None
+            sample = sam.Sample(gene, profile, sam_path, reference, debug)
+    except AldyException:
+        if is_simple or (
+            output_file is not None and output_file.name.endswith(".simple")
+        ):
+            # The sample could not be loaded: still emit the (empty) result line
+            name = os.path.basename(sam_path).split(".")[0]
+            print(name, gene.name, "", sep="\t", file=output_file)
+        raise
     profile = sample.profile  # if loaded for a dump
     assert profile, "Profile not set"
     if kind == "dump":
